@@ -1371,6 +1371,10 @@ M('C01', 'split_legs (no blocks): descending via sorted(reverse=True) (twin)', N
   "            for ax in reversed(axes):\n                res.legs[ax : ax + 1] = self.legs[ax].legs", "            for ax in sorted(axes, reverse=True):\n                res.legs[ax : ax + 1] = self.legs[ax].legs",
   None, expect='silent')
 
+M('C03', 'isort_qdata permutes the shared _qdata / _data in place (round-5 seed C02-a)', NPC,
+  "        self._qdata = self._qdata[perm, :]\n        self._data = [self._data[p] for p in perm]\n        self._qdata_sorted = True", "        self._qdata[:] = self._qdata[perm, :]\n        self._data[:] = [self._data[p] for p in perm]\n        self._qdata_sorted = True",
+  'OWN-benign-rebind')
+
 # ---------------------------------------------------------------- C16 / C19
 M('C16', 'GMRES restart: relative residual norm used for normalisation (round-3 seed b)', KRY,
   """        self.total_error.append([npc.norm(self.rs[-1]) / self.b_norm])
